@@ -706,8 +706,10 @@ def tie(ctx):
     dis += pv['dis']
     gd = tie_guard(ctx, dist)
     dis += gd['dis']
+    fr = tie_frame(ctx, dist)
+    dis += fr['dis']
     dis += lk['dis']
-    n_eval = len(pcs) + len(fcs) + ext['n'] + lk['n'] + lg['n'] + pv['n'] + gd['n']
+    n_eval = len(pcs) + len(fcs) + ext['n'] + lk['n'] + lg['n'] + pv['n'] + gd['n'] + fr['n']
     return {
         'evaluations': n_eval,
         'distinct_nontrivial': nontriv,
@@ -1732,6 +1734,118 @@ def gen_setup_cases(ctx, deep):
     return out
 
 
+# ------------------------------------------------------------------ frame: no sharing between tables
+
+def _honest(n):
+    return [('D', k) for k in range(n + 1)]
+
+
+def permuted(rng, items, flip_pers=True):
+    """the same element descriptions at other indexes (and, for extended parameters, the other persistence)"""
+    b = [dict(it) for it in items]
+    if len(b) > 1:
+        while True:
+            rng.shuffle(b)
+            if [x['name'] for x in b] != [x['name'] for x in items] or len(set(map(lambda x: bytes(x['name']), items))) < 2:
+                break
+    if flip_pers:
+        for it in b:
+            if it.get('ext'):
+                it['pers'] = not it['pers']
+    return b
+
+
+def oracle_frame_case(case):
+    """two tables alive at once (two Crazyflie objects in one process): A is downloaded, then B — the same
+    descriptions at other indexes — by another fetcher on another cf.  After B's download BOTH tables must be exactly
+    their device's (index, lookups), and no element object may be shared between them."""
+    cls = case['cls']
+    A = [ditem_unjson(d) for d in case['itemsA']]
+    B = [ditem_unjson(d) for d in case['itemsB']]
+    holders = []
+    for items, crc, ver in ((A, case['crcA'], case['verA']), (B, case['crcB'], case['verB'])):
+        c = {'cls': cls, 'ver': ver, 'raw': raw_items(cls, items), 'crc': crc, 'extra': [], 'cache': None, 'evs': _honest(len(items))}
+        obs, info = run_fetch(c)
+        if sum(1 for t in info['trace'] if t == ('fin',)) != 1 or [t for t in info['trace'] if t[0] == 'raised']:
+            return {'class': 'frame_download_failed', 'case': case, 'detail': 'a download did not complete'}
+        holders.append(info['toc'])
+
+    def fail(klass, detail):
+        return {'class': klass, 'case': case, 'detail': detail, 'observed': detail,
+                'expected': 'both tables exactly their device tables after the second download; no shared element objects'}
+    bad = check_table(cls, A, holders[0])
+    if bad:
+        return fail('other_table_changed_by_a_download', 'table A after the download of table B: %s' % bad)
+    bad = check_table(cls, B, holders[1])
+    if bad:
+        return fail('downloaded_table_differs', 'table B: %s' % bad)
+    ida = {id(e) for d in holders[0].toc.values() for e in d.values()}
+    idb = {id(e) for d in holders[1].toc.values() for e in d.values()}
+    if ida & idb:
+        return fail('element_objects_shared_between_tables', '%d element objects are part of both tables' % len(ida & idb))
+    return None
+
+
+def gen_frame_cases(ctx, deep):
+    rng = ctx.rng
+    out = []
+    for k in range(ctx.scale(24, 200) * (2 if deep else 1)):
+        cls = 'log' if k % 2 else 'param'
+        ver = rng.choice([3, 7])
+        A = gen_items(rng, cls, rng.choice([2, 3, 5, 8]), ver >= 4)
+        B = permuted(rng, A)
+        if k % 3 == 0:
+            B = B[:-1] + gen_items(rng, cls, 1, ver >= 4)          # mostly shared, one entry of its own
+        out.append({'kind': 'frame', 'cls': cls, 'verA': ver, 'verB': ver if k % 4 else (7 if ver < 4 else 3),
+                    'itemsA': [ditem_json(i) for i in A], 'itemsB': [ditem_json(i) for i in B],
+                    'crcA': rng.getrandbits(32), 'crcB': rng.getrandbits(32)})
+    # (b) two sessions on ONE object whose tables share descriptions but differ in index and persistence
+    for k in range(ctx.scale(16, 120) * (2 if deep else 1)):
+        cls = 'param' if k % 4 else 'log'
+        ver = rng.choice([3, 7]) if cls == 'log' else 7
+        A = gen_items(rng, cls, rng.choice([2, 3, 4]), ver >= 4)
+        if cls == 'param':
+            A[0]['ext'] = True
+            A[0]['pers'] = True
+        B = permuted(rng, A)
+        extA = [i for i, it in enumerate(A) if cls == 'param' and it['ext']]
+        extB = [i for i, it in enumerate(B) if cls == 'param' and it['ext']]
+        evs1 = ([['S']] if cls == 'log' else []) + [['H']] * (len(A) + 1) + [['XH']] * len(extA)
+        evs2 = ([['S']] if cls == 'log' else []) + [['H']] * (len(B) + 1) + [['XH']] * len(extB)
+        out.append({'kind': 'sessions', 'cls': cls, 'ver1': ver, 'ver2': ver, 'itemsA': [ditem_json(i) for i in A],
+                    'itemsB': [ditem_json(i) for i in B], 'crcA': rng.getrandbits(32), 'crcB': rng.getrandbits(32),
+                    'evs1': evs1, 'evs2': evs2, 'a_stored': True, 'shared_descriptions': True})
+    return out
+
+
+def tie_frame(ctx, dist):
+    """pairs of downloads with shared descriptions by the real TocFetcher: table A is RE-READ after table B's
+    download; the model computes the two tables independently (tables are values)"""
+    rng = ctx.rng
+    terms, exp, cases = [], [], []
+    for _ in range(ctx.scale(24, 200)):
+        cls = rng.choice(['log', 'param'])
+        ver = rng.choice([3, 7])
+        A = gen_items(rng, cls, rng.choice([1, 2, 3, 5]), ver >= 4)
+        B = permuted(rng, A, flip_pers=False)
+        ca = {'cls': cls, 'ver': ver, 'raw': raw_items(cls, A), 'crc': rng.getrandbits(32), 'extra': [], 'cache': None}
+        cb = {'cls': cls, 'ver': ver, 'raw': raw_items(cls, B), 'crc': rng.getrandbits(32), 'extra': [], 'cache': None}
+        _, ia = run_fetch(dict(ca, evs=_honest(len(A))))
+        _, ib = run_fetch(dict(cb, evs=_honest(len(B))))
+        exp.append(enc_toc(ia['toc'].toc) + enc_toc(ib['toc'].toc))
+        terms.append('enc_toc (f_toc (fst %s)) ++ enc_toc (f_toc (fst %s))' % (
+            model_fetch_term(ca, _honest(len(A)))[len('enc_run '):], model_fetch_term(cb, _honest(len(B)))[len('enc_run '):]))
+        cases.append((cls, ver, len(A)))
+    dis = []
+    for bi, mv in compare_blocks(HEADER, terms, exp, tag='c03fr', shard=max(2, len(terms) // 6 + 1)):
+        dis.append({'what': 'two tables with shared descriptions: table A re-read after the download of table B differs from the model '
+                            '(tables are values: no sharing)', 'cls': cases[bi][0], 'ver': cases[bi][1], 'n': cases[bi][2]})
+        if len(dis) > 2:
+            break
+    dist['frame_pairs'] = len(terms)
+    return {'dis': dis, 'n': len(terms)}
+
+
 # ------------------------------------------------------------------ lookups
 
 def impl_lookups(toc_lists_, queries):
@@ -2059,6 +2173,8 @@ def _run_oracle_case(case):
             return oracle_versions_case(case)
         if case.get('kind') == 'setup':
             return oracle_setup_case(case)
+        if case.get('kind') == 'frame':
+            return oracle_frame_case(case)
         return oracle_fetch_case(case)
     except Exception as e:  # noqa
         import traceback
@@ -2078,7 +2194,7 @@ def corpus_cases():
 def oracle(ctx, deep=False):
     fails = []
     n = 0
-    for case in corpus_cases() + _mk_oracle_cases(ctx, deep) + gen_log_oracle_cases(ctx, deep) + gen_sessions_cases(ctx, deep) + gen_versions_cases(ctx, deep) + gen_setup_cases(ctx, deep):
+    for case in corpus_cases() + _mk_oracle_cases(ctx, deep) + gen_log_oracle_cases(ctx, deep) + gen_sessions_cases(ctx, deep) + gen_versions_cases(ctx, deep) + gen_setup_cases(ctx, deep) + gen_frame_cases(ctx, deep):
         n += 1
         f = _run_oracle_case(case)
         if f:
